@@ -315,7 +315,9 @@ func (r *GatewayRegistry) getCollectionConflicts(ctx context.Context, dbName str
 
 	for _, configGroup := range r.ConfigGroups {
 		for registryDbName, database := range configGroup.Databases {
-			if registryDbName != dbName {
+			// A database with an in-progress (or interrupted) delete owns no collections: its registry entry carries no
+			// scopes, which must not be read as "default collection only".
+			if registryDbName != dbName && !database.IsDeleted() {
 				registryScopes := database.Scopes
 				if len(registryScopes) == 0 {
 					registryScopes = defaultOnlyRegistryScopes
@@ -340,7 +342,8 @@ func (r *GatewayRegistry) getPreviousConflicts(ctx context.Context, dbName strin
 	conflictingDbs := make(map[configGroupAndDatabase]struct{}, 0)
 	for cgName, configGroup := range r.ConfigGroups {
 		for registryDbName, database := range configGroup.Databases {
-			if registryDbName != dbName && database.PreviousVersion != nil {
+			// The previous version recorded by a delete carries no scopes (see deleteDatabase) and reserves nothing.
+			if registryDbName != dbName && database.PreviousVersion != nil && !database.IsDeleted() {
 				previousScopes := database.PreviousVersion.Scopes
 				if len(previousScopes) == 0 {
 					previousScopes = defaultOnlyRegistryScopes
